@@ -1,5 +1,6 @@
 import ShellOp.Proofs.Backoff
 import ShellOp.Proofs.Retry
+import ShellOp.Proofs.HookOutput
 /-!
 # C04 — failed runs are retried until success and block the queue unless allowFailure
 
@@ -599,5 +600,70 @@ theorem no_discard_repaired_witness :
     (step cfg (step cfg s (.run false 0)) (.run false 0)).items
       = [{ id := 2, allowFailure := false, ctxs := [⟨2, 3, 0⟩] }] ∧
     (step cfg (step cfg s (.run false 0)) (.run false 0)).sleep = 5 := by decide
+
+/-! ## C04.6 "… or its patch/metric/response output cannot be parsed or applied"
+
+`HookOutput` models how `Hook.Run` / `handleRunHook` turn what the hook left behind into the
+handler's error: exit code, the metrics file through `MetricOperationsFromReader` +
+`ValidateOperations`, the patch file as an outcome. -/
+
+open ShellOp.HookOutput in
+/-- **C04.6 `unparsable_output_is_failed_run`**: whatever the exit code and the patch outcome, a run
+whose metrics file is not a well-formed stream of valid metric operations (or whose exit code is
+not 0, or whose patch cannot be parsed/applied) is a *failed* run: for a head task that does not
+allow failure the task stays at the head with the contexts it was executed with, its failure
+counter grows, the worker sleeps the back-off — nothing else of the queue runs. -/
+theorem unparsable_output_is_failed_run (cfg : Cfg) (s : State) (t : Task) (rest : List Task) (rnd : Nat)
+    (exit : Nat) (metrics : List Char) (patchOk : Bool)
+    (hbad : exit ≠ 0 ∨ metricsOk metrics = false ∨ patchOk = false)
+    (hs : s.items = t :: rest) (ht : t.typ = 0) (hm : t.hasMeta = true)
+    (nd : ((t :: rest).map (·.id)).Nodup)
+    (hr : shouldRunHook (cfg.version t.hook) t = true) (ha : t.allowFailure = false) :
+    let s' := step cfg s (.run (hookOk exit metrics patchOk) rnd)
+    s'.items = ranTask cfg t rest :: restAfter cfg t rest ∧
+    (ranTask cfg t rest).id = t.id ∧
+    s'.fc t.id = s.fc t.id + 1 ∧
+    s'.sleep = cfg.backoff (s.fc t.id) rnd ∧
+    s'.log = s.log ++ [⟨t.id, t.hook, (ranTask cfg t rest).ctxs, false, s.clock + s.sleep⟩] := by
+  have hok : hookOk exit metrics patchOk = false := by
+    unfold hookOk
+    rcases hbad with h | h | h
+    · have : (exit == 0) = false := by simpa using h
+      simp [this]
+    · simp [h]
+    · simp [h]
+  rw [hok]
+  exact fail_keeps_head cfg s t rest rnd hs ht hm nd hr ha
+
+open ShellOp.HookOutput in
+/-- **C04.6 `stray_closer_is_failed_run`**: a metrics file in which — after any number of good
+documents and blanks — the next byte is a closing brace or bracket (or `,` / `:`) is unparsable as a
+whole, so the run is a failed one (with `unparsable_output_is_failed_run`: retried, queue blocked). -/
+theorem stray_closer_is_failed_run (file rest ws r : List Char) (c : Char) (exit : Nat) (patchOk : Bool)
+    (hr : Reaches file rest) (hrest : rest = ws ++ c :: r) (hws : ws.all isWs = true)
+    (hc : c = '}' ∨ c = ']' ∨ c = ',' ∨ c = ':') :
+    hookOk exit file patchOk = false := by
+  simp [hookOk, stray_closer_unparsable file rest ws r c hr hrest hws hc]
+
+open ShellOp.HookOutput in
+/-- **C04.6 `accepted_metrics_fully_read`**: a run counts as successful only if the whole metrics
+file was read: it is a stream of decodable documents followed by blanks only. -/
+theorem accepted_metrics_fully_read (exit : Nat) (file : List Char) (patchOk : Bool)
+    (h : hookOk exit file patchOk = true) : exit = 0 ∧ IsStream file ∧ patchOk = true := by
+  simp only [hookOk, Bool.and_eq_true, beq_iff_eq] at h
+  exact ⟨h.1.1, metricsOk_stream file h.1.2, h.2⟩
+
+open ShellOp.HookOutput in
+example : hookOk 0 "{\"name\":\"m\",\"set\":1}}".toList true = false
+    ∧ hookOk 0 "{\"name\":\"m\",\"set\":1}\n".toList true = true
+    ∧ hookOk 0 "{\"name\":\"m\",\"set\":1}\n]\n{\"name\":\"m\",\"set\":1}".toList true = false
+    ∧ hookOk 0 "{\"name\":\"m\",\"se".toList true = false
+    ∧ hookOk 1 [] true = false := by decide
+
+open ShellOp.HookOutput in
+/-- The hypotheses of `stray_closer_is_failed_run` are satisfiable: one good document, then `}`. -/
+example : Reaches "{\"name\":\"m\",\"set\":1}}".toList "}".toList :=
+  .doc _ (.obj [("name".toList, .str "m".toList), ("set".toList, .num)]) "}".toList _ rfl (by decide) rfl
+    (.refl _)
 
 end ShellOp.Retry.C04
